@@ -173,11 +173,7 @@ def run_model(requests: list[dict[str, Any]]) -> list[dict[str, Any]]:
     lines = [ln for ln in res.stdout.splitlines() if ln.strip()]
     if len(lines) != len(requests):
         raise Infra(f"model driver answered {len(lines)} lines for {len(requests)} cases")
-    outs = [json.loads(ln) for ln in lines]
-    for req, out in zip(requests, outs):
-        if "driver_error" in out:
-            raise Infra(f"model driver rejected a case: {out['driver_error']}: {json.dumps(req)[:500]}")
-    return outs
+    return [json.loads(ln) for ln in lines]
 
 
 # --------------------------------------------------------------------------- property interface
@@ -318,7 +314,10 @@ def evaluate(prop: Prop, cases: list[dict[str, Any]], workers: int) -> list[dict
     for rec in records:
         if rec.get("crashed"):
             continue
-        if rec["model"] is not None:
+        if rec["model"] is not None and "driver_error" in rec["model"]:
+            # what the implementation did cannot even be expressed in the model's vocabulary
+            rec["disagree"] = "the model driver rejected the observation: " + str(rec["model"]["driver_error"])
+        elif rec["model"] is not None:
             rec["disagree"] = prop.compare(rec["case"], rec["impl"], rec["model"])
         rec["monitor"] = prop.monitor(rec["case"], rec["impl"])
     return records
